@@ -149,7 +149,9 @@ func c12(c *Ctx) {
 		"together; the directory checked by Store is never the empty string of a bare file name; makeAuthKey is called only when no session was loaded."
 	r.NotDecided = []string{"byte-exact round trip of arbitrary keys/hostnames (delegated to encoding/json and base64)",
 		"torn-file behaviour beyond 'every decode error is returned'", "staleness of the mtime-keyed cache on coarse-timestamp filesystems (not reproducible here)"}
-	c.errorsKept("R12.X", "the session store (package session, SaveSession)", 4, func(f *ssa.Function) bool { return inPkgs(load.SessPkg)(f) || rootMethods("SaveSession", "LoadSession")(f) })
+	c.errorsKept("R12.X", "the session store (package session, SaveSession)", 4, func(f *ssa.Function) bool {
+		return inPkgs(load.SessPkg)(f) || rootMethods("SaveSession", "LoadSession")(f)
+	})
 	r.Rule("R12.C", "Session ↔ file ↔ MTProto field coverage (4 fields x 4 functions) and encoder/decoder pairing", 18)
 	r.Rule("R12.E", "no dropped error on the Load path; ENOENT → NotFound; NewMTProto continues only on nil / NotFound", 8)
 	r.Rule("R12.M", "cache hit guarded by ModTime().Equal(lastEdited) and cached != nil; cached and lastEdited assigned together", 2)
